@@ -5,21 +5,28 @@ Definition mk (id : nat) (d n : str) : req := {| r_id := id; r_dir := d; r_name 
 
 (* the property, evaluated on the implementation's outputs: same entity -> same identifier,
    different entities in the same directory -> different identifiers *)
-Fixpoint ok_against (r : req) (n : str) (rs : list req) (ns : list str) : bool :=
+(* a request together with the entity's kind word (item.obj): page-owning entities clash when
+   they share directory and identifier (same output file); entities without a page clash when
+   they share kind and identifier (same anchor "<obj>-<ident>") *)
+Definition clash_key (ro : req * str) : str * str :=
+  if str_eqb (r_dir (fst ro)) (s "None") then (s "#anchor", snd ro) else (s "#page", r_dir (fst ro)).
+Fixpoint ok_against (r : req * str) (n : str) (rs : list (req * str)) (ns : list str) : bool :=
   match rs, ns with
   | r' :: rs', n' :: ns' =>
-    (if Nat.eqb (r_id r) (r_id r') then str_eqb n n'
-     else if str_eqb (r_dir r) (r_dir r') then negb (str_eqb n n') else true)
+    (if Nat.eqb (r_id (fst r)) (r_id (fst r')) then str_eqb n n'
+     else if key_eqb (clash_key r) (clash_key r') then negb (str_eqb n n') else true)
     && ok_against r n rs' ns'
   | _, _ => true
   end.
-Fixpoint spec_ok (rs : list req) (ns : list str) : bool :=
+Fixpoint spec_ok (rs : list (req * str)) (ns : list str) : bool :=
   match rs, ns with
   | r :: rs', n :: ns' => ok_against r n rs' ns' && spec_ok rs' ns'
   | _, _ => true
   end.
 
-Definition judge (c : list req * list str) : nat :=
-  verdict (negb (list_eqb str_eqb (run_idents (fst c)) (snd c)))
+Definition mko (id : nat) (d n o : str) : req * str := (mk id d n, o).
+
+Definition judge (c : list (req * str) * list str) : nat :=
+  verdict (negb (list_eqb str_eqb (run_idents (map fst (fst c))) (snd c)))
           (negb (spec_ok (fst c) (snd c)) || negb (Nat.eqb (length (fst c)) (length (snd c))))
           0.
